@@ -25,6 +25,10 @@ ap.add_argument('--runs', type=int)
 ap.add_argument('--all-checks', action='store_true',
                 help='run every check, not only the one for the property')
 ap.add_argument('--scratch', action='store_true')
+ap.add_argument('--seed', type=int, help='VERIF_SEED for the checks')
+ap.add_argument('--fast', action='store_true',
+                help='no minimisation (only whether and how often a check '
+                'fires is of interest)')
 ap.add_argument('--checks', help='comma-separated check ids to run instead '
                 'of the check of the property the change breaks')
 ap.add_argument('names', nargs='*')
@@ -66,6 +70,10 @@ for d in dirs:
             cmd = ['/verif/check', cid, '--tier', 'quick']
             if args.runs:
                 cmd += ['--runs', str(args.runs)]
+            if args.seed is not None:
+                cmd += ['--seed', str(args.seed)]
+            if args.fast:
+                cmd += ['--no-minimise']
             t0 = time.time()
             p = subprocess.run(cmd, capture_output=True, text=True,
                                cwd='/verif', env=ENV)
